@@ -71,11 +71,21 @@ def main(tier):
     for li, s in enumerate(long_scenarios(1 + seed() % 5)[:2 if tier == "quick" else 6]):
         for st in ("raw", "enc", "comp", "comp+enc"):
             jobs.append(dict(par=dict(stack=st, seed=seed() + 95 + li, level=[0, 5, 11][li % 3]), sid=9500 + len(jobs), cut_stride=2, **s))
+    # a COUNT of files (not a size): thousands of small files added one after another, repaired intact and cut
+    import json as _j
+    nmany = 5000 if tier == "quick" else 70000
+    mo = os.path.join(workdir("c05-many"), "many.json")
+    mbt("prod", "many", "repair", mo, str(nmany), timeout=3000)
+    mres = _j.load(open(mo))
+    for viol in mres["violations"]:
+        v.violation(dict(check="many-files", clause=viol["kind"], profile="prod"), dict(engine="many", mode="repair", files=nmany, stack=viol["stack"], detail=viol["detail"]))
+    ev["many_files"] = dict(files=nmany, stacks_ok=mres["stacks_ok"])
+    log(f"[C05] {nmany} small files: intact archive and one cut repaired under {mres['stacks_ok']}")
     traces = run_repair_sweeps(jobs, "s20", "c05")
     validate_repair_traces(v, "C05", traces, ev, CLAUSES)
     # implementation-level model of the repair loop (spec/RepairLoop.tla): every behaviour replayed on convert_to_archive
     run_rloop(v, "C05", tier, ev)
-    cov = dict(states=sum(t["distinct"] for t in ev["tlc"]) + res.distinct + ev.get("trace_states", 0),
+    cov = dict(many_files=ev.get("many_files"), states=sum(t["distinct"] for t in ev["tlc"]) + res.distinct + ev.get("trace_states", 0),
                transitions=sum(t["generated"] for t in ev["tlc"]) + res.generated,
                traces_validated_against_impl=ev.get("traces", 0) + ev.get("decoder_runs", 0), repairs_validated=ev.get("repairs", 0),
                decoder_events_validated=ev.get("decoder_events", 0),
